@@ -54,7 +54,7 @@ STANDINS = {
     "C13": [{"mirror": "corpus", "trait": "sum_chains"}],
     "C16": [{"mirror": "corpus", "trait": "projection"}],
     "C18": [{"mirror": "auto_detect_bounded"}],
-    "C19": [{"mirror": "verify_enable_bounded"}, {"mirror": "main_wiring"}],
+    "C19": [{"mirror": "verify_enable_bounded"}, {"mirror": "main_wiring"}, {"mirror": "predicate_list_bounded"}],
 }
 
 
